@@ -822,22 +822,27 @@ impl<P: RuntimeProvider + Send + Sync> SqliteZoneHandler<P> {
                             let origin = self.origin();
 
                             let mut records = self.in_memory.records_mut().await;
-                            let old_size = records.len();
-                            records.retain(|k, _| {
-                                k.name != rr_name
+                            let mut deleted = 0;
+                            records.retain(|k, rrset| {
+                                let keep = k.name != rr_name
                                     || ((k.record_type == RecordType::SOA
                                         || k.record_type == RecordType::NS)
-                                        && k.name == *origin)
+                                        && k.name == *origin);
+
+                                // an RRset left empty by deletes of its RRs has nothing to delete
+                                if !keep && !rrset.is_empty() {
+                                    deleted += 1;
+                                }
+                                keep
                             });
-                            let new_size = records.len();
                             drop(records);
 
-                            if new_size < old_size {
+                            if deleted > 0 {
                                 updated = true;
                             }
 
                             #[cfg(all(feature = "metrics", feature = "__dnssec"))]
-                            for _ in 0..old_size - new_size {
+                            for _ in 0..deleted {
                                 if auto_signing_and_increment {
                                     self.metrics.deleted()
                                 }
@@ -853,7 +858,8 @@ impl<P: RuntimeProvider + Send + Sync> SqliteZoneHandler<P> {
                             if let RData::Update0(_) | RData::NULL(..) = rr.data {
                                 let deleted = self.in_memory.records_mut().await.remove(&rr_key);
                                 info!("deleted rrset: {deleted:?}");
-                                updated = updated || deleted.is_some();
+                                // an RRset left empty by deletes of its RRs has nothing to delete
+                                updated = updated || deleted.is_some_and(|rrset| !rrset.is_empty());
 
                                 #[cfg(all(feature = "metrics", feature = "__dnssec"))]
                                 if auto_signing_and_increment {
